@@ -14,6 +14,7 @@ import Drv.Chi2
 import Drv.Table
 import Drv.T4Scan
 import Drv.T4Spec
+import Drv.Ap3
 open Lean
 
 def dispatch (model : String) (j : Json) : Except String Json :=
@@ -27,6 +28,7 @@ def dispatch (model : String) (j : Json) : Except String Json :=
   | "table" => Drv.Table.run j
   | "t4scan" => Drv.T4Scan.run j
   | "t4spec" => Drv.T4Spec.run j
+  | "ap3" => Drv.Ap3.run j
   | "bonf" => Drv.Bonf.run j
   | "depgraph" => Drv.DepGraph.run j
   | "envp" => Drv.EnvP.run j
